@@ -20,6 +20,7 @@ import (
 	"sort"
 	"strings"
 	"testing/iotest"
+	"time"
 
 	"github.com/marekgalovic/anndb/index"
 	amath "github.com/marekgalovic/anndb/math"
@@ -222,12 +223,10 @@ func runCodec(c *Ctx) {
 						tgt.Insert(uuid.NewV4(), make(amath.Vector, dim), nil, 0)
 					}
 					var lerr error
-					var pan interface{}
-					func() {
-						defer func() { pan = recover() }()
-						lerr = tgt.Load(rd, header)
-					}()
 					where := fmt.Sprintf("reader=%s used=%v header=%v", kname, used, header)
+					pan := c.Guard(20*time.Second, "C08", "C08/load-own-output-stalls", "Load of the index's own Save output does not terminate ("+where+")", func() {
+						lerr = tgt.Load(rd, header)
+					})
 					if pan != nil || lerr != nil {
 						c.Violate("C08", "C08/load-own-output-fails", fmt.Sprintf("Load of the index's own Save output failed (%s): err=%v panic=%v", where, lerr, pan), c.History())
 						continue
@@ -256,11 +255,9 @@ func runCodec(c *Ctx) {
 					c.cur[len(c.cur)-1] = fmt.Sprintf("trunc %d %d <first %d of %d bytes>", b2i(header), dim, cut, len(data))
 					tgt := index.NewHnsw(uint(dim), sp, g.options()...)
 					var lerr error
-					var pan interface{}
-					func() {
-						defer func() { pan = recover() }()
+					pan := c.Guard(20*time.Second, "C08", "C08/load-truncated-stalls", "Load of a truncated snapshot does not terminate", func() {
 						lerr = tgt.Load(bytes.NewReader(tr), header)
-					}()
+					})
 					switch {
 					case pan != nil:
 						c.Res("load panic %v", pan)
